@@ -48,6 +48,8 @@ def bodies():
             ("floordiv_pub_counter", "i", "{i} // ({k} - {k})"), ("ffloordiv_pub_zero", "f", "{f} // {Z}"), ("fmod_pub_tiny", "f", "{f} % 0.0001"),
             ("fdiv_pub_tiny", "f", "{f} / 0.0001"),
             ("if_guard_helper", None, "_ig_pos({i})"), ("if_guard_helper2", None, "_ig_lt({i}, {i})"), ("if_guard_python_check", None, "_ig_py({i})"),
+            # a helper that runs an oblivious loop over a secret bound with checkstopmax=True: a bound beyond max is an error in live code only
+            ("loop_checkstopmax", "i", "_loop_sum({i}, {k})"), ("loop_checkstopmax_expr", "i", "_loop_sum({i} + {i}, {k}) + {i}"),
             ("comp_inexact_cmp", "b", "({i} / {k}) < {i}"), ("comp_inexact_bits", "i", "LinComb.from_bits(({i} / {k}).to_bits())")]
     return out
 
